@@ -41,7 +41,6 @@ type c16SObs struct {
 	Err     string   `json:"err,omitempty"`
 }
 
-
 func c16InitBody(v string, id int) []byte {
 	b, _ := json.Marshal(map[string]interface{}{"jsonrpc": "2.0", "id": id, "method": "initialize",
 		"params": map[string]interface{}{"protocolVersion": c16Versions[v], "clientInfo": map[string]interface{}{"name": "p", "version": "0"}, "capabilities": map[string]interface{}{}}})
